@@ -12,7 +12,12 @@ Generators : (a) vlib.pygen programs rendered by CPython's unparser and restyled
              (d) real text: every *.xsh under the repository, the xonsh code blocks of docs/*.rst,
              the inputs of xonsh's own parser and formatter tests, and a sample of stdlib statements;
              (e) untokenisable inputs (unterminated triple-quoted string / f-string, unclosed
-             bracket, inconsistent dedent) appended to or injected into valid programs.
+             bracket, inconsistent dedent) appended to or injected into valid programs;
+             (f) characters that str.splitlines() takes for a line end and xonsh's tokenizer does not (form feed -
+             also as a ^L page-break line -, VT, FS, GS, RS, NEL, U+2028, U+2029) inside a comment, string literal,
+             docstring or f-string literal part, *followed* by text that the formatter copies from its cache of raw
+             source lines (continuation lines inside brackets, f-string literal parts with `{{`/`}}`, alias-macro
+             text): one generated xonsh text in eleven (vlib.c17_xgen.exotic_program) and one family-(a) text in ten.
 Oracle     : precondition: the input parses with xonsh's context-aware entry `Execer.parse(src, ctx)`
              (the same entry and the same ctx for input and output).  ctx=set() for xonsh text
              (families b, d-if-not-Python): every statement that can be a command is one; for plain
@@ -63,7 +68,9 @@ HOOKS = False
 RULE = ("source text from (a) generated Python ASTs in random surface styles with injected multi-line literals, (b) generated "
         "xonsh command lines / macros / captures, (c) both mixed in nested blocks with random indent units, blank-line runs and "
         "comments, (d) repository *.xsh files, docs code blocks, xonsh parser/formatter test inputs and stdlib statements, "
-        "(e) untokenisable variants + the command line's write discipline; each input that xonsh's Execer.parse accepts (ctx=set() "
+        "(e) untokenisable variants + the command line's write discipline, (f) a character that only str.splitlines() takes for a "
+        "line end (FF VT FS GS RS NEL U+2028 U+2029) in a comment / literal in front of text the formatter copies from its raw line "
+        "cache; each input that xonsh's Execer.parse accepts (ctx=set() "
         "for xonsh text, all identifiers known for plain Python) is formatted and the output must parse to the same canonical tree "
         "with the same comment sequence and be a fixed point; non-trivial = the formatter changed the text and the source has >= 2 "
         "logical lines (family (e): the tokenizer really rejects the text, or the formatter would change the file); "
@@ -107,7 +114,39 @@ def _setup(scratch):
 
 def xparse(src):
     """xonsh's context-aware entry; the set of known names is fixed per case (see `reading`)."""
+    if _state.get("stand_ins"):
+        src = _stand_ins(src)
     return _state["ex"].parse(src, ctx=set(_state.get("names", ())), filename="<verif>")
+
+
+# The characters that str.splitlines() takes for line ends and xonsh's tokenizer does not (vlib.c17_xgen.EXOTIC_SEPARATORS).
+# xonsh's *parser* cuts text out of source.splitlines() in several places (the line-wise command recovery of the Execer, the
+# raw text of `f!(...)` arguments and `with!` bodies, the text of a self-documenting f-string field `{x=}`), so behind such a
+# character it reads `s = f'{x=}'` as the text ' :' of another line, or a command line as Python.  That is the parser's defect
+# and would hide what the formatter does.  For a text that holds such characters, meaning is therefore compared on a copy in
+# which every one of them is replaced by a private-use character of its own (inside comments and literals; a form feed
+# outside them by a blank) - in the input and in the output alike; the formatter always gets the real text.
+_STAND_IN = {c: chr(0xE000 + i) for i, c in enumerate(["\x0b", "\x1c", "\x1d", "\x1e", "\x85", "\u2028", "\u2029", "\x0c"])}
+_STAND_IN_RX = re.compile("[%s]" % "".join(_STAND_IN))
+
+
+def _stand_ins(text):
+    if not _STAND_IN_RX.search(text):
+        return text
+    if "\x0c" in text:
+        # a form feed outside comments and literals is white space: a blank stands in for it
+        xtok = _state["xtok"]
+        inside = []
+        try:
+            inside = [(t.a, t.b) for t in A.real_tokens(text) if t.type in (xtok.COMMENT, xtok.STRING, xtok.FSTRING_MIDDLE)]
+        except Exception:  # noqa: BLE001
+            pass
+        chars = list(text)
+        for i, c in enumerate(chars):
+            if c == "\x0c" and not any(a <= i < b for a, b in inside):
+                chars[i] = " "
+        text = "".join(chars)
+    return _STAND_IN_RX.sub(lambda m: _STAND_IN[m.group(0)], text)
 
 
 def reading(src, ctx):
@@ -179,12 +218,21 @@ _WORD = re.compile(r"[A-Za-z_][A-Za-z0-9_]*")
 _ESC = re.compile(r"\\[ntrfvx0]")
 
 
+_LITERAL_WORDS = {}
+
+
 def _literal_words(tok):
     """identifier-like words of a string literal's value, written the way ast.unparse (repr) writes it"""
     import ast
+    import warnings
 
+    hit = _LITERAL_WORDS.get(tok)
+    if hit is not None:
+        return hit
     try:
-        v = ast.literal_eval(tok)
+        with warnings.catch_warnings():
+            warnings.simplefilter("ignore")       # invalid escape sequences
+            v = ast.literal_eval(tok)
     except Exception:  # noqa: BLE001  (a xonsh-only prefix, e.g. p'...')
         v = None
     if isinstance(v, bytes):
@@ -193,7 +241,11 @@ def _literal_words(tok):
         text = repr(v)[1:-1]
     else:
         text = tok[re.match(r"[A-Za-z]*", tok).end():]
-    return _WORD.findall(_ESC.sub(" ", text))
+    words = _WORD.findall(_ESC.sub(" ", text))
+    if len(_LITERAL_WORDS) > 4000:
+        _LITERAL_WORDS.clear()
+    _LITERAL_WORDS[tok] = words
+    return words
 
 
 def _accounts_for_names(src, tree):
@@ -213,6 +265,8 @@ def _accounts_for_names(src, tree):
     xtok = _state["xtok"]
     if tree is None:
         return True
+    if _state.get("stand_ins"):
+        src = _stand_ins(src)         # the text that was parsed (see xparse)
     try:
         toks = A.tokenize(src)
     except Exception:  # noqa: BLE001
@@ -316,8 +370,35 @@ def verdict(ref, cand):
     except Exception as e:  # noqa: BLE001
         return "output-untokenisable", "%s: %s" % (type(e).__name__, e)
     if k2 != ref.comments:
+        # xonsh's tokenizer switches to its subprocess comment rule (`a#b` holds no comment) for the rest of the text at
+        # the first physical line that starts with `![` `$[` `$(` `!(` (F15/F16/F17).  When that line is another one in
+        # the output - e.g. a continuation line `$[ls] ...` that got its indent - unchanged lines further down tokenise
+        # differently, which says nothing about their text: both texts are then compared under that rule from the start.
+        if _sticky_onset(ref.src) != _sticky_onset(cand):
+            try:
+                if _forced_comments(ref.src) == _forced_comments(cand):
+                    return None
+            except Exception:  # noqa: BLE001
+                pass
         return "comments-differ", "comment texts %r became %r" % (_first_diff(ref.comments, k2))
     return None
+
+
+def _sticky_onset(text):
+    """the first physical line that puts xonsh's tokenizer into its subprocess mode (None: no such line)"""
+    for ln in text.split("\n"):
+        if ln[:2] in ("![", "$[", "$(", "!("):
+            return ln.rstrip(" \t")
+    return None
+
+
+def _forced_comments(text):
+    """comment texts with the tokenizer in subprocess mode from the first line on"""
+    xtok = _state["xtok"]
+    if text and not text.endswith("\n"):
+        text += "\n"
+    return [t.string.strip(" \t\x0c") for t in xtok.tokenize(io.BytesIO(text.encode("utf-8", "surrogatepass")).readline, tolerant=False, is_subproc=True)
+            if t.type == xtok.COMMENT]
 
 
 def _first_diff(a, b):
@@ -355,6 +436,7 @@ def check_source(src, family="?", reduce=True, want_labels=True, tolerate=True, 
     res = Result()
     st["names"] = reading(src, ctx)
     st["ctx"] = ctx
+    st["stand_ins"] = bool(_STAND_IN_RX.search(src))
     # (re-armed every 5 s: an exception raised inside a garbage-collection callback is swallowed by the interpreter)
     signal.setitimer(signal.ITIMER_REAL, CASE_SECONDS, 5)
     try:
@@ -432,8 +514,14 @@ def check_source(src, family="?", reduce=True, want_labels=True, tolerate=True, 
                     t2 = xparse(out)
                 except Exception:  # noqa: BLE001
                     t2 = None
-                sig, det = A.signature(out, sc2, t2)
+                sig, det = A.signature(out, sc2, t2, probe=_probe_subproc)
                 fid = c17_findings.classify("not-idempotent", sig, det, st["open"])
+                if fid is None and det and "C17-F03" in st["open"] and _sticky_onset(nsrc) != _sticky_onset(out) \
+                        and all(c17_findings.edit_finding(d) == "C17-F03" for d in det):
+                    # the second pass pads a `#` glued to a command word (F03).  The first pass did not, because the
+                    # tokenizer was in its sticky subprocess mode (`a#` is no comment there) from a line on that no
+                    # longer starts with `$[` ... in the output (a continuation line that got its indent)
+                    fid = "C17-F03"
                 res.failures.append(Failure("not-idempotent", {"src": src, "family": family, "ctx": _jsonctx(ctx)},
                                             "format_source(out) != out; edits of the second pass: %s" % (A.brief(det)[:4],),
                                             finding=fid, bucket=fid or "not-idempotent:%s" % (sig[:3],)))
@@ -846,6 +934,7 @@ def _py_case(rnd, st, budget):
 
     from vlib import c01_findings, pygen, pyoracle, stylist
 
+    _py_case.labels = []
     g = pygen.Gen(rnd, budget=budget)
     shape = rnd.randrange(6)
     if shape == 0:
@@ -865,7 +954,14 @@ def _py_case(rnd, st, budget):
         st.hist["gen-selfcheck-failed"] += 1
         return None
     sty = stylist.Styler(rnd)
-    text = sty.restyle(src)
+    try:
+        text = sty.restyle(src)
+    except SystemError:
+        # CPython 3.12.1's tokenize module raises `SystemError: Negative size passed to PyUnicode_New` on some of the
+        # stylist's candidate texts (an interpreter bug, seen at seed 49); not a statement about xonsh
+        st.discards += 1
+        st.hist["discard:cpython-tokenize-SystemError"] += 1
+        return None
     for t in sty.applied:
         st.hist["style:" + t] += 1
     if rnd.randrange(3) == 0:
@@ -887,6 +983,14 @@ def _py_case(rnd, st, budget):
                 pos = min(x.lineno for x in d.decorator_list) - 1
         text = "\n".join(pieces[:pos] + lit.split("\n") + pieces[pos:]) + "\n"
         st.hist["injected-multiline-literal"] += 1
+    if rnd.randrange(10) == 0:
+        # a line in front that holds a character which only str.splitlines() takes for a line end (see c17_xgen)
+        from vlib import c17_xgen
+
+        xg = c17_xgen.XGen(rnd)
+        text = xg.exotic_head() + "\n" + text
+        _py_case.labels = sorted(set(xg.labels))
+        st.hist["injected-exotic-separator"] += 1
     r = pyoracle.compare(text, "exec")
     if r.kind == "invalid":
         st.discards += 1
@@ -914,7 +1018,7 @@ def worker_py(arg):
     def body(rnd):
         text = _py_case(rnd, st, budget)
         if text is not None:
-            record(st, text, "python-generated", ctx="all")
+            record(st, text, "python-generated", extra_labels=_py_case.labels, ctx="all")
 
     common.run_given(hs.randoms(use_true_random=False), body, seed, n)
     return st
@@ -937,11 +1041,14 @@ def worker_xsh(arg):
         avoid = c17_findings.avoid_switches(rnd, _state["open"])
         g = c17_xgen.XGen(rnd, avoid=avoid)
         ctx = "empty"
-        shape = rnd.randrange(10)
+        shape = rnd.randrange(11)
         if shape < 6:
             src, fam = g.one_line(), "xonsh-line"
         elif shape < 8:
             src, fam = g.program(), "xonsh-program"
+        elif shape == 10:
+            # a character that only str.splitlines() takes for a line end, then text the formatter copies from the raw lines
+            src, fam = g.exotic_program(), "xonsh-exotic-separator"
         else:
             pynames = set()
             g.py_source = lambda: _py_stmt(rnd, st, pynames)
@@ -991,7 +1098,11 @@ def _py_stmt(rnd, st, names):
         ast.parse(src)
     except (SyntaxError, ValueError, RecursionError, MemoryError):
         return None
-    text = stylist.Styler(rnd).restyle(src, max_transforms=2)
+    try:
+        text = stylist.Styler(rnd).restyle(src, max_transforms=2)
+    except SystemError:      # CPython 3.12.1 tokenize bug, see _py_case
+        st.hist["discard:cpython-tokenize-SystemError"] += 1
+        return None
     # every physical line a complete logical line: xonsh's line-wise recovery garbles Python statements that span
     # lines once they sit between command lines (multi-line Python is family (a)'s business)
     if "\\\n" in text or _spans_lines(text):
@@ -1386,6 +1497,10 @@ def main(run):
     tot = st.evaluations + st.discards
     generated_discards = sum(v for k, v in st.hist.items() if k in ("discard:xonsh-line", "discard:xonsh-program", "discard:mixture"))
     generated = sum(v for k, v in st.hist.items() if k in ("xonsh-line", "xonsh-program", "mixture")) + generated_discards
+    ex_ok, ex_dis = st.hist.get("xonsh-exotic-separator", 0), st.hist.get("discard:xonsh-exotic-separator", 0)
+    run.extra["exotic_separator_cases_judged"] = sum(v for k, v in st.hist.items() if k.startswith("exotic:U+"))
+    if ex_ok + ex_dis >= 50 and ex_ok < 0.3 * (ex_ok + ex_dis):
+        raise common.HarnessError("exotic-separator generator: only %d of %d texts judged (generator out of tune)" % (ex_ok, ex_ok + ex_dis))
     run.extra["generated_xonsh_discard_rate"] = round(generated_discards / max(1, generated), 3)
     if generated and generated_discards / generated > 0.35:
         raise common.HarnessError("xonsh generator: %d of %d texts rejected by the parser (generator out of tune)" % (generated_discards, generated))
@@ -1411,7 +1526,12 @@ def main(run):
         "the words inside string literals are part of the token accounting on both sides (text and tree)",
         "for text CPython accepts, CPython's parser is the referee when xonsh's two parses disagree although the edits are in Python text",
         "the text of a `( ... )` subshell is compared by its own tree (it is a xonsh program handed to `xonsh -c`), not byte for byte",
-        "carriage returns, form feeds, BOMs and non-UTF-8 files are out of domain (the CLI reads with universal newlines)",
+        "carriage returns, BOMs and non-UTF-8 files are out of domain (the CLI reads with universal newlines); form feeds are only "
+        "generated outside indentation (a page-break line, a line end, in front of a comment, inside comments and literals)",
+        "behind a character that only str.splitlines() takes for a line end, xonsh's parser itself cuts the raw text of `f!(...)` "
+        "arguments and `with!` bodies out of the wrong lines (it splits the source with splitlines()) and its line-wise command "
+        "recovery mostly fails: family (f) holds no such macros, and what the parser rejects or garbles there is skipped and counted "
+        "like everywhere else",
         "comment text is compared after stripping blanks at both ends (the formatter documents trailing-blank removal)",
     ]
 
@@ -1423,9 +1543,27 @@ def replay(run, path):
     if d.get("finding") and "finding" not in case:
         case = dict(case, finding=d["finding"])
     _setup(run.scratch)
-    fail = _replay_case(case)
-    if fail is None:
+    if "good" in case:
+        fails = [f for f in [_replay_case(case)] if f is not None]
+    else:
+        res = check_source(case["src"], case.get("family", "replay"), reduce=False, tolerate=False,
+                           ctx=case["ctx"] if case.get("ctx") is not None else "empty")
+        fails = res.failures
+        if res.status.startswith("skip:") or res.status == "inconclusive":
+            print("replay: case not judged (%s): outside the property's domain" % res.status)
+            return 0
+        for lab in res.labels:
+            if lab.startswith("exempt:"):
+                print("replay: %s" % lab)
+    if not fails:
         print("replay: property holds on this case")
         return 0
-    print("VIOLATION property=%s replay=%s kind=%s %s" % (PROP, path, fail.kind, common._oneline(fail.detail)))
-    return 1
+    rc = 0
+    for f in fails:
+        if f.finding and f.finding in _state["open"]:
+            # a recorded finding reproduces on this case: that is not a violation
+            print("KNOWN-FINDING: property=%s %s kind=%s %s" % (PROP, f.finding, f.kind, common._oneline(f.detail)))
+        else:
+            print("VIOLATION property=%s replay=%s kind=%s %s" % (PROP, path, f.kind, common._oneline(f.detail)))
+            rc = 1
+    return rc
